@@ -322,7 +322,7 @@ def run_canary(spec, rep, timeout_s):
         return
     orig = spec.ensures
     try:
-        spec.ensures = lambda I, a, out: canary(I, a, out)
+        spec.ensures = lambda I, a, out: (canary(I, a, out) if out.kind == "return" else [])
         refuted = False
         for case in spec.cases()[-1:]:
             results = H.explore(spec, case)
